@@ -19,7 +19,6 @@ import (
 	"k8s.io/apimachinery/pkg/runtime/schema"
 
 	"metacontroller/pkg/apis/metacontroller/v1alpha1"
-	"metacontroller/pkg/controller/common"
 	commonv2 "metacontroller/pkg/controller/common/api/v2"
 	dynamicdiscovery "metacontroller/pkg/dynamic/discovery"
 	dynamicinformer "metacontroller/pkg/dynamic/informer"
@@ -42,22 +41,8 @@ func VerifC20_RelatedInformerLifecycle() {
 	}
 	hook := &verifC15Hook{rules: rules}
 	var enq []interface{}
-	cc := &v1alpha1.CompositeController{}
-	cc.Name = "cc"
-	cc.Spec.Hooks = &v1alpha1.CompositeControllerHooks{Customize: &v1alpha1.Hook{}}
 	parentLister := env.NewLister()
-	mgr := &Manager{
-		name:             "cc",
-		controller:       cc,
-		parentKinds:      common.GroupKindMap{},
-		dynClient:        w.Dyn,
-		dynInformers:     factory,
-		parentInformers:  common.InformerMap{},
-		relatedInformers: make(common.InformerMap),
-		customizeCache:   newResponseCache(),
-		enqueueParent:    func(o interface{}) { enq = append(enq, o) },
-		customizeHook:    hook,
-	}
+	mgr, _ := VerifNewManager(w.Dyn, factory, func(o interface{}) { enq = append(enq, o) }, hook)
 	mgr.parentKinds.Set(schema.GroupKind{Group: env.ThingRes.Group, Kind: env.ThingRes.Kind}, env.ThingRes)
 	mgr.parentInformers.Set(verifC15GVR(env.ThingRes), dynamicinformer.VerifNewResourceInformer(parentLister))
 	stopCh := make(chan struct{})
@@ -136,28 +121,14 @@ func VerifC17_ConcurrentRelated() {
 	factory := dynamicinformer.NewSharedInformerFactory(w.Dyn, 0)
 	rules := []*v1alpha1.RelatedResourceRule{{ResourceRule: v1alpha1.ResourceRule{APIVersion: "v1", Resource: "configmaps"}, Names: []string{"a"}, Namespace: "ns"}}
 	hook := &verifC15Hook{rules: rules}
-	cc := &v1alpha1.CompositeController{}
-	cc.Name = "cc"
-	cc.Spec.Hooks = &v1alpha1.CompositeControllerHooks{Customize: &v1alpha1.Hook{}}
 	parentLister := env.NewLister()
 	var enqMu sync.Mutex
 	var enq []interface{}
-	mgr := &Manager{
-		name:             "cc",
-		controller:       cc,
-		parentKinds:      common.GroupKindMap{},
-		dynClient:        w.Dyn,
-		dynInformers:     factory,
-		parentInformers:  common.InformerMap{},
-		relatedInformers: make(common.InformerMap),
-		customizeCache:   newResponseCache(),
-		enqueueParent: func(o interface{}) {
-			enqMu.Lock()
-			defer enqMu.Unlock()
-			enq = append(enq, o)
-		},
-		customizeHook: hook,
-	}
+	mgr, _ := VerifNewManager(w.Dyn, factory, func(o interface{}) {
+		enqMu.Lock()
+		defer enqMu.Unlock()
+		enq = append(enq, o)
+	}, hook)
 	mgr.parentKinds.Set(schema.GroupKind{Group: env.ThingRes.Group, Kind: env.ThingRes.Kind}, env.ThingRes)
 	mgr.parentInformers.Set(verifC15GVR(env.ThingRes), dynamicinformer.VerifNewResourceInformer(parentLister))
 	stopCh := make(chan struct{})
